@@ -26,7 +26,7 @@ def regions(prop):
     return out
 
 
-def slices(tier, check, tag=None, quick_step=None, quick_cap=None):
+def slices(tier, check, tag=None, quick_cap=None):
     """-> (slices, counts per culture, region slices per finding id)"""
     kn = known()
     out, counts, region = [], {}, {}
@@ -39,11 +39,18 @@ def slices(tier, check, tag=None, quick_step=None, quick_cap=None):
         ok = [x for x in pool['discharged'] if x['q'] not in listed and (tag is None or tag in x.get('tags', []))]
         extra = [q for q in pool.get('recheck', []) if q not in listed] if tag is None else []          # inputs of repaired findings: always checked
         if tier == 'quick':
-            fast = [x['q'] for x in ok if x['wall'] <= 12]
-            step = quick_step.get(cult, 12) if isinstance(quick_step, dict) else (quick_step or 12)
-            qs = fast[::step]
-            if quick_cap:
-                qs = qs[:quick_cap]
+            # stratified sample: the fastest input of every distinct output-shape signature (tools/tag_c11.py), round-robin up to the cap
+            fast = sorted((x for x in ok if x['wall'] <= 12), key=lambda x: (x['wall'], x['q']))
+            seen, qs = set(), []
+            for x in fast:
+                sg = x.get('sig', x['q'])
+                if sg not in seen:
+                    seen.add(sg)
+                    qs.append(x['q'])
+            cap = quick_cap.get(cult, quick_cap.get('*')) if isinstance(quick_cap, dict) else quick_cap
+            if cap and len(qs) > cap:
+                step = len(qs) / float(cap)
+                qs = [qs[int(i * step)] for i in range(cap)]
             qs += extra
         else:
             qs = [x['q'] for x in ok] + extra
